@@ -468,6 +468,15 @@ class Lab:
 
         self.fw.process_order_package = capture
 
+        # ... and their execution (what the simulated exchange actually receives)
+        self.executed = []
+        for ex_ in {id(cl.execution): cl.execution for cl in self.clients if getattr(cl, "execution", None) is not None}.values():
+            def run_pkg(pkg, _orig=ex_.handler):
+                self.executed.append(pkg)
+                return _orig(pkg)
+
+            ex_.handler = run_pkg
+
         # capture logging events synchronously (again only inside the checker process)
         self.events = []
         orig_log = self.fw.log_control
